@@ -238,14 +238,23 @@ theorem sum_leaf_general (hF : ProbFamily env) (pop : Option Name) {c rs : List 
 
 /-- **`Sum(e, rs).simplify()` denotes `Σ_rs e`** (C13 `sum_simplify_den`; the fixed superset branch included).
 For a joint leaf the side conditions `SumLeafOK` are needed; every other summand is returned unchanged. -/
-theorem sumSimplify_den (hF : ProbFamily env) (e : Expr) (rs : List Var)
-    (hleaf : ∀ pop c, e = .prob pop c [] → SumLeafOK c rs) (σ : Val) :
+theorem sumSimplify_den_w (hF : ProbFamily env) (e : Expr) (rs : List Var)
+    (hleaf : ∀ pop c, e = .prob pop c [] → (c.map (·.name)).Nodup → SumLeafOK c rs) (σ : Val) :
     den env σ' (sumSimplify e rs) σ = sumVars env.card (rs.map (·.name)) (fun τ => den env σ' e τ) σ := by
+  by_cases hdup : ∃ pop c, e = .prob pop c [] ∧ dupBase c = true
+  · obtain ⟨pop, c, rfl, hd⟩ := hdup
+    rw [sumSimplify_dup hd]; simp
   unfold sumSimplify
   split
   · rename_i pop c
-    have h := hleaf pop c rfl
+    have hg0 : dupBase c = false := by
+      cases hd : dupBase c with
+      | false => rfl
+      | true => exact absurd ⟨pop, c, rfl, hd⟩ hdup
+    have h := hleaf pop c rfl (dupBase_false_iff.mp hg0)
+    have hg : ((dedup' (c.map Var.base)).length != c.length) = false := hg0
     have hcn : c.Nodup := nodup_of_nodup_map_name h.names_nodup
+    simp only [hg, Bool.false_eq_true, if_false]
     simp only [den_joint hF]
     rw [sum_leaf_general hF _ h]
     rw [dedup'_of_nodup (nodup_map_base h.names_nodup)]
@@ -318,5 +327,11 @@ theorem sumSimplify_den (hF : ProbFamily env) (e : Expr) (rs : List Var)
             have hk : v.base ∈ keys := List.mem_map_of_mem hv
             exact ⟨fun h hr => h.2 ⟨hr, hk⟩, fun h => ⟨hk, fun h' => h h'.1⟩⟩
   · simp
+
+/-- the statement with the side conditions required of every joint leaf (kept for its callers) -/
+theorem sumSimplify_den (hF : ProbFamily env) (e : Expr) (rs : List Var)
+    (hleaf : ∀ pop c, e = .prob pop c [] → SumLeafOK c rs) (σ : Val) :
+    den env σ' (sumSimplify e rs) σ = sumVars env.card (rs.map (·.name)) (fun τ => den env σ' e τ) σ :=
+  sumSimplify_den_w hF e rs (fun pop c h _ => hleaf pop c h) σ
 
 end Y0
